@@ -39,6 +39,8 @@ type spec struct {
 	funcs  []string          // functions to translate: `Name` or `Recv.Name`, in output order
 	header string
 	elem   bool // the definitions are generic in an element type α
+	// decls: type declarations the kinds above rely on, as `go/printer` renders their right-hand sides
+	decls map[string]string
 }
 
 var specs = map[string]*spec{
@@ -47,6 +49,7 @@ var specs = map[string]*spec{
 		types:  map[string]string{"T": "u64", "BitSet": "u64", "bool": "bool"},
 		recvNS: map[string]string{"BitSet": "BitSet"},
 		funcs:  []string{"MakeBitSet", "BitSet.Add", "BitSet.Remove", "BitSet.MaskOf", "BitSet.Has", "BitSet.HasAny"},
+		decls:  map[string]string{"BitSet": "uint64", "anyUint": "interface { ~uint64 | ~uint32 | ~uint16 | ~uint8 | ~uint }"},
 		header: "`BitSet[T]` and the flag type `T` (any unsigned integer type, converted with `BitSet[T](x)`, i.e. zero\nextended) are both `Go.U64`.",
 	},
 	"set": {
@@ -54,6 +57,7 @@ var specs = map[string]*spec{
 		types:  map[string]string{"T": "elem", "Set": "map", "bool": "bool", "int": "int"},
 		recvNS: map[string]string{"Set": "Set"},
 		funcs:  []string{"Make", "Set.Slice", "Set.Add", "Set.AddSet", "Set.Remove", "Set.RemoveSet", "Set.Has", "Set.HasAny"},
+		decls:  map[string]string{"Set": "map[T]struct{}"},
 		header: "`Set[T]` is `Go.GMap α` (nil or allocated, keys in walk order), `[]T` is `Go.Slice α`, a variadic\n`...T` is a `List α`.  A method that writes through its receiver (pointer receiver, or a map receiver\nit inserts into / deletes from) returns the receiver's new value next to its result.\nNot translated: the four Marshal/Unmarshal methods (they call encoding/json and yaml.v3; modelled in\n`SetM.Codec` with the codec as a parameter).",
 		elem:   true,
 	},
@@ -826,6 +830,21 @@ func main() {
 			key = recvTypeName(fd.Recv.List[0].Type) + "." + key
 		}
 		decls[key] = fd
+	}
+	// the type declarations the kinds rely on
+	found := map[string]string{}
+	for _, d := range file.Decls {
+		if gd, ok := d.(*ast.GenDecl); ok && gd.Tok == token.TYPE {
+			for _, sp := range gd.Specs {
+				ts := sp.(*ast.TypeSpec)
+				found[ts.Name.Name] = src(ts.Type)
+			}
+		}
+	}
+	for n, want := range sp.decls {
+		if found[n] != want {
+			fail("%s: type %s is declared as `%s`; the translation assumes `%s`", sp.file, n, found[n], want)
+		}
 	}
 	// pass 1: signatures
 	for _, key := range sp.funcs {
